@@ -381,7 +381,7 @@ func report(prop, tier string, scs []Scenario, all []shardResult, infra string, 
 	}
 	// supplementary free-running -race pass (thorough tier; run by the driver before this binary)
 	fr := os.Getenv("VERIF_FREERACE")
-	if strings.HasPrefix(fr, "race:") || strings.HasPrefix(fr, "failed:") {
+	if strings.HasPrefix(fr, "race:") {
 		path := fr[strings.Index(fr, ":")+1:]
 		fp := "freerun|" + fr[:strings.Index(fr, ":")]
 		if k, ok := isKnown(fp); ok {
